@@ -1,4 +1,69 @@
-(* C15: non-vacuity. *)
+(* C15: non-vacuity — a concrete function meets every hypothesis of nilness_sound / sa4023_sound, has a real
+   execution that returns, and exports a non-trivial claim; and the analysis distinguishes the claims. *)
 From Coq Require Import List Arith Bool.
 Import ListNotations.
-Require Import Verif.Model.C13 Verif.Model.C13_Nilness Verif.Model.C15.
+Require Import Verif.Model.C13 Verif.Model.C13_Nilness Verif.Model.C15 Verif.Gen.C15_SA4023 Verif.Model.C15_Check.
+
+(* func NilCheck(p *int) *int { if p == nil { return new(int) }; return p }
+   values: 0 = p, 1 = nil:*int, 2 = new(int), 3 = p == nil *)
+Definition nilcheck : func :=
+  mkF [mkV VParam true false; mkV VNilConst true false; mkV VInstr true false; mkV VInstr false false]
+      [mkB [IDef 3; IIf 0 true] [1; 2] [];
+       mkB [INew 2; IReturn [2]] [] [0];
+       mkB [IReturn [0]] [] [0]]
+      [0; 1] [(true, false)].
+
+Example nilcheck_wf : wf_func_b nilcheck = true.
+Proof. vm_compute. reflexivity. Qed.
+
+Example nilcheck_fact : analyse nilcheck (pick_heap (fsuccs nilcheck)) 100 = Some [(MaybeNil, NeverNil)].
+Proof. vm_compute. reflexivity. Qed.
+
+(* the execution NilCheck(non-nil p): entry --false branch--> block 2 returns p *)
+Definition r0 : env := fun v => match v with 0 => Some SNon | 1 => Some SNil | _ => None end.
+
+Example r0_ok : init_env_ok nilcheck r0.
+Proof.
+  intros v. destruct v as [|[|v]]; simpl.
+  - repeat split; auto.
+  - repeat split; auto.
+  - exact I.
+Qed.
+
+Example nilcheck_returns : returns nilcheck r0 0 SNon.
+Proof.
+  exists 2, (eset r0 3 SNon), (eset r0 3 SNon), [0]. repeat split.
+  - apply R_step with (a := 0) (r := r0); [apply R_entry|].
+    split; [simpl; auto|].
+    exists (eset r0 3 SNon). split.
+    + eapply EL_cons; [apply E_def; reflexivity|].
+      eapply EL_cons; [| apply EL_nil].
+      eapply E_if with (first := false) (sh := SNon); reflexivity.
+    + exists []. repeat split. intros k p H. destruct k; discriminate.
+  - eapply EL_cons; [apply E_return | apply EL_nil].
+Qed.
+
+(* SA4023-style claim on an interface result: func F() any { return new(int) } is never a nil interface *)
+Definition mkiface : func :=
+  mkF [mkV VInstr true false; mkV VInstr true true]
+      [mkB [INew 0; IMakeIface 1 0; IReturn [1]] [] []] [] [(true, true)].
+Example mkiface_flagged :
+  option_map (fun facts => sa4023_flags (nth 0 facts MM)) (analyse mkiface (fun w => hd 0 w) 10) = Some true.
+Proof. vm_compute. reflexivity. Qed.
+
+(* the analysis does not claim NeverNil when a nil can flow: func G(p *int) *int { return p } *)
+Definition ident_fn : func :=
+  mkF [mkV VParam true false] [mkB [IReturn [0]] [] []] [0] [(true, false)].
+Example ident_fact : analyse ident_fn (fun w => hd 0 w) 10 = Some [(MaybeNil, MaybeNil)].
+Proof. vm_compute. reflexivity. Qed.
+
+(* a loop that swaps a nil and a non-nil pointer: parallel phis give MaybeNil (sequential ones claimed NeverNil) *)
+Definition swap : func :=
+  mkF [mkV VNilConst true false; mkV VInstr true false; mkV VInstr true false; mkV VInstr true false; mkV VInstr false false]
+      [mkB [INew 1] [1] [];
+       mkB [IPhi 2 [0; 3]; IPhi 3 [1; 2]; IDef 4] [2; 3] [0; 2];
+       mkB [INop] [1] [1];
+       mkB [IReturn [3]] [] [1]]
+      [0] [(true, false)].
+Example swap_fact : analyse swap (pick_heap (fsuccs swap)) 200 = Some [(MaybeNil, MaybeNil)].
+Proof. vm_compute. reflexivity. Qed.
